@@ -277,3 +277,164 @@ func VerifEscape() {
 	vAssert(len(d) == 2+ph+i, "escape-ident-length")
 	vReach("escape")
 }
+
+// VerifUnicodeRange: "U+" + hex digits / '?' / range: a well-formed unicode-range (1-6 hex
+// digits, or hex digits padded with '?' to at most 6, or two 1-6 digit bounds) is one token.
+func VerifUnicodeRange() {
+	ph := vRange("ph", 0, vParam("PH", 3))
+	n := vRange("n", 1, vParam("N", 4))
+	tail := vBytes("b", n)
+	for i := range tail {
+		c := tail[i]
+		vAssume(c == '0' || c == 'F' || c == 'a' || c == '?' || c == '-' || c == 'g' || c == ' ' || c == ';')
+	}
+	src := []byte("U+")
+	for k := 0; k < ph; k++ {
+		src = append(src, '0')
+	}
+	src = append(src, tail...)
+	// reference
+	i := 2
+	h1 := 0
+	for i < len(src) && refHexC(src[i]) {
+		i++
+		h1++
+	}
+	q := 0
+	for i < len(src) && src[i] == '?' {
+		i++
+		q++
+	}
+	want := -1
+	if q > 0 {
+		if h1+q <= 6 {
+			want = i
+		}
+	} else if h1 >= 1 && h1 <= 6 {
+		want = i
+		if i < len(src) && src[i] == '-' {
+			j := i + 1
+			h2 := 0
+			for j < len(src) && refHexC(src[j]) {
+				j++
+				h2++
+			}
+			if h2 >= 1 && h2 <= 6 {
+				want = j
+			} else {
+				// "U+1-" without a following hex digit: the library's own test suite pins
+				// [Ident Number Delim] here (the spec would give UnicodeRange Delim): no claim.
+				// More than 6 digits: not a well-formed range: no claim.
+				want = -1
+			}
+		}
+	}
+	if want < 0 {
+		return
+	}
+	tt, d, _ := vnLexOne(src)
+	vAssert(tt == UnicodeRangeToken && len(d) == want, "unicode-range-token")
+	vReach("unicode-range")
+}
+
+// refEscapeLen: length of a valid escape at i (backslash, then 1-6 hex digits + optional
+// whitespace, or any character that is not a newline), 0 if none.
+func refEscapeLen(b []byte, i int) int {
+	if i+1 >= len(b) || b[i] != '\\' {
+		return 0
+	}
+	c := b[i+1]
+	if c == '\n' || c == '\r' || c == '\f' {
+		return 0
+	}
+	if refHexC(c) {
+		j := i + 1
+		for j < len(b) && j < i+7 && refHexC(b[j]) {
+			j++
+		}
+		if j < len(b) && refWSc(b[j]) {
+			j++
+		}
+		return j - i
+	}
+	return 2
+}
+
+// VerifURLToken: "url(" + body: an unquoted url ends at ')'; whitespace may only precede the
+// ')'; a quote, '(' or non-printable makes it a bad url that extends to the matching ')' with
+// escapes honoured (an escaped ')' does not end it).
+func VerifURLToken() {
+	n := vRange("n", 0, vParam("N", 4))
+	tail := vBytes("b", n)
+	for i := range tail {
+		c := tail[i]
+		vAssume(c == 'a' || c == ' ' || c == '\\' || c == ')' || c == '(' || c == '"' || c == 'd')
+	}
+	src := append([]byte("url("), tail...)
+	i := 4
+	for i < len(src) && refWSc(src[i]) {
+		i++
+	}
+	if i < len(src) && (src[i] == '"' || src[i] == '\'') {
+		return // quoted urls: not modelled by this reference
+	}
+	bad := false
+	end := -1
+	for i < len(src) {
+		c := src[i]
+		if c == ')' {
+			end = i + 1
+			break
+		}
+		if refWSc(c) {
+			for i < len(src) && refWSc(src[i]) {
+				i++
+			}
+			if i >= len(src) {
+				end = i
+			} else if src[i] == ')' {
+				end = i + 1
+			} else {
+				bad = true
+			}
+			break
+		}
+		if c == '"' || c == '\'' || c == '(' || c <= 0x1F || c == 0x7F {
+			bad = true
+			break
+		}
+		if c == '\\' {
+			if e := refEscapeLen(src, i); e > 0 {
+				i += e
+				continue
+			}
+			bad = true
+			break
+		}
+		i++
+	}
+	if !bad {
+		if end < 0 {
+			end = len(src)
+		}
+		tt, d, _ := vnLexOne(src)
+		vAssert(tt == URLToken && len(d) == end, "url-token")
+		vReach("url")
+		return
+	}
+	// bad url: consume to the matching ')' honouring escapes, or to the end
+	for i < len(src) {
+		if src[i] == ')' {
+			i++
+			break
+		}
+		if e := refEscapeLen(src, i); e > 0 {
+			i += e
+			continue
+		}
+		i++
+	}
+	tt, d, _ := vnLexOne(src)
+	vAssert(tt == BadURLToken && len(d) == i, "bad-url-token")
+	vReach("badurl")
+}
